@@ -285,7 +285,7 @@ PROPS["C12"] = dict(
     harnesses=[
         H("c12_add_nodes_fresh_name", "table", Q, 1500, "standing of the stored node symbolic; name = a fresh identity", "one add_nodes; unwind 66", ["RoutingTable::add_nodes", "RoutingTable::add_node", "Bucket::add_node", "Node::as_questionable", "Node::update"]),
         H("c12_add_nodes_own_id", "table", Q, 1500, "name = the local id", "one add_nodes", ["RoutingTable::add_nodes", "leading_bit_count"]),
-        H("c12_add_nodes_router_address", "table", Q, 1500, "name = a router's address with a fresh id (routers = {addr})", "one add_nodes", ["RoutingTable::add_nodes"]),
+        H("c12_add_nodes_router_address", "table", T, 5000, "name = a router's address with a fresh id (routers = {addr})", "one add_nodes", ["RoutingTable::add_nodes"]),
         H("c12_add_nodes_existing_by_hearsay", "table", T, 2500, "name = the stored identity (arbitrary standing, incl. dropped as bad), responder = a fresh identity", "one add_nodes", ["RoutingTable::add_nodes", "Node::update"]),
         H("c12_add_nodes_alias_of_responder", "table", Q, 1500, "name = a fresh id on the responder's own address", "one add_nodes", ["RoutingTable::add_nodes"]),
         H("c19_from_bytes_length_gate", "transaction", Q, 300, "32 symbolic bytes; every prefix length 0..=32", "lengths enumerated", ["TransactionID::from_bytes"]),
@@ -293,4 +293,4 @@ PROPS["C12"] = dict(
 )
 
 # Properties whose harnesses exist but are not (yet) registered: not claimed in MANIFEST.json.
-PENDING = {"C12"}
+PENDING = set()
